@@ -17,7 +17,9 @@ EXPLANATION = (
     "by the clause that negates every one of its literals, added to the same formula that is solved; KB4 the border's value grows by exactly that "
     "probability and `improvement` records it; an unsatisfiable formula marks the border complete (improvement None) without changing its value; "
     "KB5 evaluate() returns the TRUE / FALSE constants for the TRUE / FALSE node, lb.value when the lower border is complete, 1.0 - ub.value when the "
-    "upper one is, and otherwise the pair (lb.value, 1.0 - ub.value) - lower bound first; the convergence test compares ub.value + lb.value with 1."
+    "upper one is, and otherwise the pair (lb.value, 1.0 - ub.value) - lower bound first; the convergence test compares ub.value + lb.value with 1; "
+    "KB6 the partial CNF encoding the borders hand to the solver (CNF._contents with smart_constraints): the indicator of a constraint is implied by every decided atom of "
+    "the constraint, certainly true as well as not possibly true, and means 'enforce the constraint'."
 )
 TECHNIQUE = "static analysis: decision table of KBestEvaluator.evaluate's exits, literal/weight sign pairing and polarity pairing patterns"
 LEVEL_TEXT = EXPLANATION
@@ -174,6 +176,32 @@ def rule_border(repo, col):
                "Border.is_complete must be `self.improvement is None`", construct="Border.is_complete", function="Border.is_complete")
 
 
+def rule_kb6(repo, col):
+    """partial CNF encoding used by the k-best solver calls: the indicator of a smart constraint is switched on by every decided literal, true or false"""
+    f = repo.func("problog.cnf_formula", "CNF._contents")
+    m = f.module
+    blocks = [n for n in ast.walk(f.node) if isinstance(n, ast.If) and "smart_constraints" in norm(n.test)]
+    if len(blocks) != 1:
+        raise AnalysisError("CNF._contents: smart-constraint branch not found")
+    loops = [n for n in blocks[0].body if isinstance(n, ast.For) and isinstance(n.target, ast.Name)]
+    if len(loops) != 1:
+        raise AnalysisError("CNF._contents: loop over the literals of a smart constraint not found")
+    b = loops[0].target.id
+    app = [norm(c.args[0]).replace(" ", "") for c in ast.walk(loops[0]) if isinstance(c, ast.Call) and norm(c.func) == "clauses.append" and c.args]
+    want_true = "w_max+[-ct(abs(%s)),ind]" % b
+    want_false = "w_max+[pt(abs(%s)),ind]" % b
+    col.decide("KB6", m, loops[0], want_true in app and want_false in app and len(app) == 2,
+               "the indicator is implied by 'certainly true' and by 'not possibly true' of every literal of the constraint",
+               "the smart-constraint encoding must add, for every literal b of the constraint, the clauses [-ct(|b|), ind] and [pt(|b|), ind] (the constraint is enforced as soon as one of its "
+               "atoms is decided either way); found %s - with one of them missing a proof that only sets choices to false escapes the annotated-disjunction constraint and is counted "
+               "with too large a probability" % app, construct="smart constraint: indicator activation", function="CNF._contents")
+    tail = [norm(c.args[0]).replace(" ", "") for st in blocks[0].body if not isinstance(st, ast.For) for c in ast.walk(st) if isinstance(c, ast.Call) and norm(c.func) == "clauses.append" and c.args]
+    ok2 = "w_max+v+[-ind]" in tail and "w_max+list(map(cpt,body))+[-ind]" in tail and len(tail) == 2
+    col.decide("KB6", m, blocks[0], ok2, "an active indicator enforces the constraint; an inactive one requires all atoms undecided",
+               "after the loop the encoding must add [v.., -ind] (indicator off only when every atom is undecided) and [constraint.., -ind] (indicator on enforces the constraint); found %s" % tail,
+               construct="smart constraint: indicator meaning", function="CNF._contents")
+
+
 def run(repo, col):
     col.rule("KB1", "polarity of the borders")
     col.rule("KB2", "probability of a proof: literal / weight sign pairing")
@@ -182,3 +210,5 @@ def run(repo, col):
     col.rule("KB5", "shape of the returned bounds")
     rule_kb1_kb5(repo, col)
     rule_border(repo, col)
+    col.rule("KB6", "partial encoding of smart constraints (annotated disjunctions) used by the solver calls")
+    rule_kb6(repo, col)
